@@ -932,7 +932,6 @@ func lookupGuards(r *goan.Rel, s *goan.Site) []string {
 	return out
 }
 
-
 // sidedText renders an expression with the identifiers of spec 1 and spec 2 replaced by ① and ②
 // (swap=true exchanges them); unsided names whose spelling ends in 1/2 lose the digit as well.
 func sidedText(r *goan.Rel, e ast.Node, swap bool) string { return sidedTextOpt(r, e, swap, false) }
